@@ -55,14 +55,14 @@ def demo_cmd(d, wt):
         head = open(t).read()[:4000]
         pk = meta.get("demo_pkg_dir")
         if not pk:
-            mm = re.search(r"[Cc]opy this file (?:into|to)\s+`?repo/([\w./-]+?)(?:/demo_test\.go)?/?`?\s", head)
+            mm = re.search(r"[Cc]opy (?:this file )?(?:into|to)\s*:?\s+`?repo/([\w./-]+?)(?:/demo_test\.go)?/?`?\s", head)
             pk = mm.group(1) if mm else None
         if not pk:
             sys.exit("cannot find package dir for demo_test.go in " + d)
         run = meta.get("demo_run")
         cwd = wt
         if not run:
-            mm = re.search(r"^//\s*(?:cd (repo[\w./-]*) && )?(go test [^\n]*)$", head, re.M)
+            mm = re.search(r"^//\s*(?:Run with\s*:\s*)?(?:cd (repo[\w./-]*) && )?(go test [^\n]*)$", head, re.M)
             if not mm:
                 sys.exit("cannot find run command in " + t)
             run = mm.group(2).strip()
